@@ -113,6 +113,10 @@ CMDS = {  # facade command -> (sets that define it, std record, call)
 @st.composite
 def sequence(draw):
     steps = []
+    if draw(st.integers(0, 3)) == 0:
+        # the facade is an instance of a Python subclass that constructs detached and attaches by being
+        # called (the pattern of the repository's own tests/mock_device.MockSCSI)
+        steps.append(("facade", "detached_subclass"))
     n = draw(st.integers(1, 6))
     types = st.one_of(st.sampled_from(sorted(EXPECT)), st.integers(0, 31), st.sampled_from([0x03, 0x0C, 0x0D, 0x11, 0x1F]))
     for i in range(n):
@@ -132,8 +136,16 @@ def check_sequence(steps):
     cur = None
     history = []  # (dev, tgt, devtype, opcodes object at attach time, kind)
     nt = False
+    class Detached(SCSI):
+        def __init__(self, blocksize=0):
+            self.device = None
+            self._blocksize = blocksize
+
     try:
         for step in steps:
+            if step[0] == "facade":
+                s = Detached(512)
+                continue
             if step[0] == "attach":
                 _, devtype, qual, kind = step
                 dev, tgt = make_device(kind, devtype, qual)
@@ -221,7 +233,8 @@ def check_sequence(steps):
         transports.clear_routes()
     kinds = sorted({st_[3] for st_ in steps if st_[0] == "attach"})
     return nt, ["seq_" + k for k in kinds] + (["reattach"] if len(history) > 1 else []) + (
-        ["failed_reattach"] if any(st_[0] == "reattach_same_failing" for st_ in steps) else [])
+        ["failed_reattach"] if any(st_[0] == "reattach_same_failing" for st_ in steps) else []) + (
+        ["subclassed_facade"] if any(st_[0] == "facade" for st_ in steps) else [])
 
 
 def run(ctx):
